@@ -566,6 +566,18 @@ impl C15 {
                     let _ = c.set_exit(with_succ[rng.usize(with_succ.len())]);
                 }
             }
+            // the exit block sometimes ends in a Branch operation (a call in the middle of lifted code): the next
+            // graph still follows it
+            if rng.chance(1, 4) {
+                if let Some(e) = c.exit() {
+                    if let Ok(b) = c.block_mut(e) {
+                        b.branch(il::expr_const(0xc0de_0000 + 0x100 * i as u64, 64));
+                        if let Some(last) = b.instructions_mut().last_mut() {
+                            last.set_address(Some(0x10f0 + 0x100 * i as u64));
+                        }
+                    }
+                }
+            }
             gs.push(c);
         }
         let describe = |gs: &[ControlFlowGraph]| json!(gs.iter().map(cfg_json).collect::<Vec<_>>());
